@@ -261,6 +261,7 @@ func TestRegressions(t *testing.T) {
 		{"F11", "connend", "srvctx-unary-later0-garbage", "C15", 1},
 		{"F7", "reader", "n1-pat3-len4097", "C20", 1},
 		{"F7", "reader", "n1-pat4-len0", "C20", 0},
+		{"F13", "stream", "k2-l3,3-noctx", "C07", 0},
 	}
 	for _, c := range cases {
 		sc := Registry[c.scen]
